@@ -267,14 +267,19 @@ func (s *stub) books() kit.Ev {
 
 // ---------------------------------------------------------------- recording wrappers
 
+// recAcc records the accounting calls of one node. The calls are serialised per node so that the order of the
+// log is the order in which they took effect (two handlers serving the same peer may call Debit at the same time).
 type recAcc struct {
 	w     *world
 	n     string
 	inner accounting.Interface
 	st    *stub
+	mu    sync.Mutex
 }
 
 func (a *recAcc) Reserve(peer boson.Address, t uint64) error {
+	a.mu.Lock()
+	defer a.mu.Unlock()
 	err := a.inner.Reserve(peer, t)
 	a.st.mu.Lock()
 	av := a.st.avail
@@ -285,12 +290,16 @@ func (a *recAcc) Reserve(peer boson.Address, t uint64) error {
 }
 
 func (a *recAcc) Credit(ctx context.Context, peer boson.Address, t uint64) error {
+	a.mu.Lock()
+	defer a.mu.Unlock()
 	err := a.inner.Credit(ctx, peer, t)
 	a.w.log(kit.Ev{"op": "credit", "n": a.n, "p": a.w.nodeName(peer), "amt": int64(t), "ok": err == nil, "err": errStr(err)})
 	return err
 }
 
 func (a *recAcc) Debit(peer boson.Address, t uint64) error {
+	a.mu.Lock()
+	defer a.mu.Unlock()
 	a.st.mu.Lock()
 	p := a.w.nodeName(peer)
 	net := a.st.xfer[p] - a.st.chqIn[p]
@@ -657,7 +666,7 @@ func (w *world) doGet(op map[string]interface{}) error {
 	w.log(kit.Ev{"op": "get", "n": n, "c": c, "via": via, "routes": rnames, "faults": append([]string{}, w.plan...), "st": w.projection()})
 
 	ctx := sctx.SetRootHash(context.Background(), w.fx.root[c])
-	if via == "targets" {
+	if via == "targets" && len(routes) > 0 { // like the API: no targets parameter, no targets in the context
 		var hs []string
 		for _, r := range routes {
 			hs = append(hs, r.TargetNode.String())
